@@ -359,3 +359,210 @@ def run_cell(torch, gpytorch, case):
     res["sample"]["value"] = val.detach().reshape(-1).tolist()
     res["sample"]["raw_hyperparameters_compared"] = [nm for nm, _ in named]
     return res
+
+
+# ---------------------------------------------------------------------------------------------
+# part "zoo" of ExactObjective.tla: noise structure x forwarded arguments, and every library class with *_prior arguments
+def _chain(obj, dotted):
+    for a in dotted.split("."):
+        obj = getattr(obj, a)
+    return obj
+
+
+def zoo_value(torch, rank, shape, name):
+    """pairwise distinct constrained values: element e (row-major over batch and own dimensions, e <= 11) of the parameter of
+    rank r gets 0.3 + 0.17 r + 0.0137 e; ArcKernel.angle lives in (0.1, 0.9)"""
+    nel = int(math.prod(shape))
+    if nel > 12:
+        raise core.Machinery("parameter %s has %d elements: the value grids of two ranks would meet" % (name, nel))
+    v = (0.3 + 0.17 * rank + 0.0137 * torch.arange(nel, dtype=torch.float64)).reshape(tuple(shape))
+    if name.endswith(".angle"):
+        v = 0.1 + 0.8 * v / 3.0
+    return v
+
+
+def _zoo_kernel(torch, gpytorch, kind, BS, pri):
+    """the library class with every *_prior constructor argument given; pri: public property name -> prior object"""
+    K = gpytorch.kernels
+    d = 2
+    kw = {name + "_prior": pr for name, pr in pri.items() if "." not in name}
+    if kind == "rbf":
+        return K.RBFKernel(ard_num_dims=d, batch_shape=BS, **kw)
+    if kind == "matern":
+        return K.MaternKernel(nu=1.5, ard_num_dims=d, batch_shape=BS, **kw)
+    if kind == "rq":
+        return K.RQKernel(ard_num_dims=d, batch_shape=BS, **kw)
+    if kind == "pp":
+        return K.PiecewisePolynomialKernel(q=2, ard_num_dims=d, batch_shape=BS, **kw)
+    if kind == "periodic":
+        return K.PeriodicKernel(ard_num_dims=d, batch_shape=BS, **kw)
+    if kind == "cosine":
+        return K.CosineKernel(batch_shape=BS, active_dims=(0,), **kw)       # cos(pi |r| / p) is positive definite on the line only
+    if kind == "linear":
+        return K.LinearKernel(ard_num_dims=d, batch_shape=BS, **kw)
+    if kind == "poly":
+        return K.PolynomialKernel(power=2, batch_shape=BS, **kw)
+    if kind == "constk":
+        return K.ConstantKernel(batch_shape=BS, **kw)
+    if kind == "cyl":
+        inner = K.RBFKernel(batch_shape=BS, lengthscale_prior=pri.get("radial_base_kernel.lengthscale"))
+        return K.CylindricalKernel(num_angular_weights=3, radial_base_kernel=inner, batch_shape=BS, **kw)
+    if kind == "arc":
+        return K.ArcKernel(K.MaternKernel(nu=2.5, batch_shape=BS), ard_num_dims=d, batch_shape=BS, **kw)
+    raise core.Machinery("unknown zoo class %r" % (kind,))
+
+
+class ZooPriorsNotRegistered(Exception):
+    pass
+
+
+def build_zoo(torch, gpytorch, cell, exp, seed):
+    import random
+    rnd = random.Random(seed)
+    g = torch.Generator().manual_seed(seed)
+    D = torch.float64
+    B = tuple(cell["B"])
+    BS = torch.Size(B)
+    n, d = cell["n"], 2
+    KPRE = "covar_module.base_kernel."
+    # priors with their own (pairwise different) parameters, by public name
+    pp, pri = {}, {}
+    for name, fam, _rank in exp["terms"]:
+        pr = _prior(gpytorch, fam, _draw(fam, rnd)).to(D)
+        pp[name] = (fam, (float(pr.concentration), float(pr.rate)) if fam == "gamma" else (float(pr.loc), float(pr.scale)))
+        pri[name] = pr
+    kpri = {nm[len(KPRE):]: pr for nm, pr in pri.items() if nm.startswith(KPRE)}
+    base = _zoo_kernel(torch, gpytorch, cell["kernel"], BS, kpri)
+    covar = gpytorch.kernels.ScaleKernel(base, batch_shape=BS, outputscale_prior=pri.get("covar_module.outputscale"))
+    mean = gpytorch.means.ConstantMean(batch_shape=BS, constant_prior=pri.get("mean_module.constant"))
+    x = (torch.rand(*B, n, d, generator=g, dtype=D) * 2 - 1) * 0.7            # inside the unit ball (CylindricalKernel)
+    y = torch.sin(2 * x.sum(-1)) + 0.8 + 0.3 * torch.randn(*B, n, generator=g, dtype=D)
+    stored = 0.15 + 0.3 * torch.rand(*B, n, generator=g, dtype=D)
+    call = 0.55 + 0.4 * torch.rand(*B, n, generator=g, dtype=D)                # differs from the stored noise in every entry
+    L = gpytorch.likelihoods
+    if cell["lik"] == "homo":
+        lik = L.GaussianLikelihood(batch_shape=BS, noise_prior=pri.get("likelihood.noise"))
+    elif cell["lik"] == "fixed":
+        lik = L.FixedNoiseGaussianLikelihood(noise=stored, learn_additional_noise=False)
+    else:
+        lik = L.FixedNoiseGaussianLikelihood(noise=stored, learn_additional_noise=True, batch_shape=BS, noise_prior=pri.get("likelihood.second_noise"))
+
+    class Model(gpytorch.models.ExactGP):
+        def __init__(s):
+            super().__init__(x, y, lik)
+            s.mean_module = mean
+            s.covar_module = covar
+
+        def forward(s, inp):
+            return gpytorch.distributions.MultivariateNormal(s.mean_module(inp), s.covar_module(inp))
+
+    model = Model().to(D)
+    got_priors = sorted(nm for nm, *_ in model.named_priors())
+    if len(got_priors) != len(exp["terms"]):
+        raise ZooPriorsNotRegistered("every *_prior constructor argument was given (%s), named_priors() of the model lists %s" % ([t[0] for t in exp["terms"]], got_priors))
+    # every parameter at a value of its own, through the public setters, read back through the public properties
+    for name, rank in exp["params"]:
+        owner, attr = name.rsplit(".", 1)
+        mod = _chain(model, owner)
+        want = zoo_value(torch, rank, tuple(getattr(mod, attr).shape), name)
+        setattr(mod, attr, want)
+        got = getattr(mod, attr)
+        if tuple(got.shape) != tuple(want.shape) or float((got.detach() - want).abs().max()) > 1e-9:
+            raise core.Machinery("could not set %s to %s (reads back %s)" % (name, want.tolist(), got.tolist()))
+    allv = torch.cat([_chain(model, nm).detach().reshape(-1) for nm, _ in exp["params"]])
+    if len(torch.unique((allv * 1e6).round())) != allv.numel():
+        raise core.Machinery("parameter values are not pairwise distinct: %s" % sorted(allv.tolist()))
+    model.train()
+    lik.train()
+    return dict(model=model, lik=lik, x=x, y=y, pp=pp, stored=stored, call=call, n=n, B=B)
+
+
+NOISE_WORDS = dict(call="the noise given at the call", stored="the noise the likelihood was built with", learned="the learned homoskedastic noise",
+                   second="the learned additional noise")
+
+
+def zoo_reference(torch, b, cell, exp):
+    """[log N(y; m, K + S) + closed-form log prior densities at the PUBLIC parameter properties] / n, S summed from the components
+    the specification lists"""
+    model, lik, x, y, n, B = b["model"], b["lik"], b["x"], b["y"], b["n"], b["B"]
+    D = torch.float64
+    eye = torch.eye(n, dtype=D)
+    comp = dict(call=lambda: torch.diag_embed(b["call"]), stored=lambda: torch.diag_embed(b["stored"]),
+                learned=lambda: lik.noise.unsqueeze(-1) * eye, second=lambda: lik.second_noise.unsqueeze(-1) * eye)
+    A = model.covar_module(x).to_dense()
+    for k, cnt in exp["noise"].items():
+        for _ in range(int(cnt)):
+            A = A + comp[k]()
+    m = model.mean_module(x)
+    main = dense_logN(torch, y, m, A) if cell["obj"] == "mll" else dense_loo_terms(torch, y, m, A).sum(-1)
+    total = main
+    for name, fam, _rank in exp["terms"]:
+        if b["pp"][name][0] != fam:
+            raise core.Machinery("spec term %s family %s but the model was built with %s" % (name, fam, b["pp"][name][0]))
+        total = total + per_batch_sum(log_density(torch, fam, b["pp"][name][1], _chain(model, name)), B)
+    if tuple(total.shape) != tuple(exp["shape"]):
+        raise core.Machinery("dense definition has shape %s, the spec's objective %s for cell %s" % (list(total.shape), exp["shape"], cell))
+    return total / exp["div"], A
+
+
+def run_zoo(torch, gpytorch, case):
+    cell, exp, seed = case["cell"], case["exp"], case["seed"]
+    B = tuple(cell["B"])
+    S = " + ".join(NOISE_WORDS[k] for k, c in exp["noise"].items() for _ in range(int(c)))
+    call = "%s(output, target%s%s)" % (cell["obj"], ", train_inputs" if cell["args"] == "inputs" else "", ", noise=v" if cell["kw"] == "noise" else "")
+    desc = "%s kernel=ScaleKernel(%s) likelihood=%s batch=%s N=%d priors=%s seed=%d" % (
+        call, cell["kernel"], cell["lik"], list(B), cell["n"], {nm: fam for nm, fam, _ in exp["terms"]}, seed)
+    plain_cell = (cell["lik"], cell["kw"], cell["args"]) == ("homo", "none", "none")
+    base = "C02/zoo/%s/%s" % (cell["obj"], ("class-" + cell["kernel"]) if plain_cell else "%s/kw-%s/args-%s" % (cell["lik"], cell["kw"], cell["args"]))
+    key = ["zoo"] + [cell[k] for k in ("obj", "kernel", "lik", "kw", "args", "B", "n", "rot")]
+    res = dict(key=key, ok=True, nontrivial=True, sample=dict(cell=desc, S=S))
+
+    def fail(sym, detail):
+        res.update(ok=False, sig=base + "/" + sym, detail=desc + ": " + detail, case=case)
+        return res
+
+    ok, b = core.guarded(build_zoo, torch, gpytorch, cell, exp, seed)
+    if not ok:
+        if "Machinery" in str(b):
+            raise core.Machinery(str(b))
+        if "ZooPriorsNotRegistered" in str(b):
+            return fail("prior-argument-not-registered", str(b))
+        return fail("raises", "building the model raised %s" % b)
+    model, lik, x, y = b["model"], b["lik"], b["x"], b["y"]
+    named = [(nm, p) for nm, p in model.named_parameters() if p.requires_grad]
+    params = [p for _, p in named]
+    ref, A = zoo_reference(torch, b, cell, exp)
+    ev = torch.linalg.eigvalsh(A.detach())
+    if float(ev.min()) <= 0 or float((ev.max(-1).values / ev.min(-1).values).max()) > 1e4:
+        raise core.Machinery("generated instance is not well conditioned: %s" % desc)
+    w = weights(torch, B)
+    gref = torch.autograd.grad((w * ref).sum(), params, allow_unused=True)
+    cls = gpytorch.mlls.ExactMarginalLogLikelihood if cell["obj"] == "mll" else gpytorch.mlls.LeaveOneOutPseudoLikelihood
+    obj = cls(lik, model)
+    args = (x,) if cell["args"] == "inputs" else ()
+    kwargs = dict(noise=b["call"]) if cell["kw"] == "noise" else {}
+
+    def code():
+        v = obj(model(x), y, *args, **kwargs)
+        return v, torch.autograd.grad((w * v).sum() if tuple(v.shape) == B else v.sum(), params, allow_unused=True)
+
+    ok, r = core.guarded(code)
+    if not ok:
+        return fail("raises", "objective raised %s" % r)
+    val, gcode = r
+    if tuple(val.shape) != B:
+        return fail("shape", "objective has shape %s, batch shape %s" % (list(val.shape), list(B)))
+    g, why = core.close(val.detach(), ref.detach(), 1e-7, 1e-9)
+    if not g:
+        return fail("value", "objective %s differs from the dense definition [log N(y; m, K + S) + log priors at the public parameter properties] / %d "
+                    "with S = %s: %s (%s)" % (val.detach().tolist(), exp["div"], S, ref.detach().tolist(), why))
+    for (name, p), gc, gr in zip(named, gcode, gref):
+        gc = torch.zeros_like(p) if gc is None else gc
+        gr = torch.zeros_like(p) if gr is None else gr
+        g, why = core.close(gc, gr, 1e-6, 1e-9)
+        if not g:
+            return fail("grad", "gradient (of the weighted sum over the batch elements) w.r.t. %s differs from autograd of the dense definition "
+                        "(S = %s): %s" % (name, S, why))
+    res["n"] = 1 + len(named)
+    res["sample"]["value"] = val.detach().reshape(-1).tolist()
+    return res
